@@ -462,6 +462,25 @@ def scalar_into_dict(bp, k, r):
     return bp
 
 
+def give_init_sequences(bp):
+    """Preparation applied to x itself: every submitted task that has two lightweight tasks with
+    different content before it gets them as its init-task sequence (so that re-ordering edits
+    have something to work on)"""
+    import json as _json
+
+    bp = copy.deepcopy(bp)
+    for k, node in enumerate(bp["nodes"]):
+        if node.get("submit") is None:
+            continue
+        lws = _lw_nodes(bp, k)
+        distinct = {}
+        for j in lws:
+            distinct.setdefault(_json.dumps(bp["nodes"][j]["args"], sort_keys=True), j)
+        if len(distinct) >= 2:
+            node["submit"] = dict(node["submit"], init=sorted(distinct.values())[:3])
+    return bp if patches_valid(bp) else None
+
+
 def prune_towards_v(bp):
     """Preparation applied to x itself (not an edit): in every Node, drop the arguments that
     sort between its first int-valued dict parameter and `v`, so that pairs produced by
